@@ -344,9 +344,15 @@ class TNDyn(TNOps):
         okshape = Q.ndim == 2 and R.ndim == 2 and Q.shape[0] == m_ and R.shape == (k, n_) and len(qi) == k and k >= 1
         if not self.check(okshape, P, 'shapes', lambda: f'A{A.shape} Q{Q.shape} R{R.shape} len(qi)={len(qi)}'):
             return out
-        nA = float(np.linalg.norm(A))
-        dev = float(np.linalg.norm(Q @ R - A))
-        self.check(dev <= 1e-13 * max(nA, 1e-300) * max(1, min(m_, n_)) if nA > 0 else dev == 0, P, 'product', lambda: f'|QR - A|={dev:.3e} |A|={nA:.3e} shape {A.shape}')
+        nA = dn.safe_norm(A)
+        if not (np.all(np.isfinite(Q)) and np.all(np.isfinite(R))):
+            self.check(False, P, 'finite', lambda: f'non-finite factors for a finite matrix (|A|={nA:.3e}, shape {A.shape})')
+            return out
+        with np.errstate(all='ignore'):
+            # scale-safe residual: (Q R - A) / |A| evaluated without forming squares of extreme magnitudes
+            sc_ = nA if nA > 0 else 1.0
+            dev = dn.safe_norm(Q @ (R / sc_) - A / sc_)
+        self.check(dev <= 1e-13 * max(1, min(m_, n_)) if nA > 0 else dev == 0, P, 'product', lambda: f'|QR - A|/|A|={dev:.3e} |A|={nA:.3e} shape {A.shape}')
         self.check(dn.isometry_defect(Q) <= 1e-12, P, 'isometric', lambda: f'|Q^H Q - 1|={dn.isometry_defect(Q):.3e} shape {Q.shape}')
         qia = np.asarray(qi, dtype=np.int64)
         offQ = np.abs(Q[np.not_equal.outer(q0a, qia)]).max(initial=0.0)
